@@ -277,6 +277,51 @@ pub fn run_build(ctx: &Ctx) -> Report {
         e[format!("{}:E3.locale_pairs", tag)] = json!({"space": {"kind": "every ordered pair (x, y) of the CLDR layout locales: direction(x), then direction(y) on one thread; direction(y) must equal its answer in isolation", "pairs": pairs},
             "inputs": pairs, "wall_s": (t0.elapsed().as_secs_f64() * 100.0).round() / 100.0});
     }
+    // the same two-call histories over a product domain in which any two identifiers share a
+    // language, a script or a region: 9 languages (listed right-to-left and not) x 9 scripts (none,
+    // listed either way, unlisted) x 3 regions -- a memo keyed on PART of the identifier (the script
+    // alone, language + region) answers y with x's verdict
+    {
+        let t0 = std::time::Instant::now();
+        let mut ids: Vec<LanguageIdentifier> = vec![];
+        for la in ["und", "en", "he", "ar", "az", "uz", "ug", "dv", "pa"] {
+            for sc in ["", "-Hebr", "-Thaa", "-Arab", "-Latn", "-Thai", "-Grek", "-Qaaa", "-Mong"] {
+                for r in ["", "-IL", "-KZ"] {
+                    ids.push(format!("{}{}{}", la, sc, r).parse().expect("product identifier"));
+                }
+            }
+        }
+        let alone: Vec<Option<Dir>> = ids.iter().map(|li| guard_total(|| li.character_direction()).ok().map(to_dir)).collect();
+        let mut pairs = 0u64;
+        let mut bad = 0u64;
+        for (i, x) in ids.iter().enumerate() {
+            for (j, y) in ids.iter().enumerate() {
+                pairs += 1;
+                let r = guard_total(|| {
+                    let _ = x.character_direction();
+                    to_dir(y.character_direction())
+                });
+                if r.as_ref().ok() != alone[j].as_ref() && bad < 1000 {
+                    bad += 1;
+                    let _ = i;
+                    coll.push(pairs, Violation {
+                        sub: "c14.history",
+                        class: "character_direction of an identifier depends on the call made before it (state kept between calls)".into(),
+                        case: Case::Text(format!("dirhist:{}:{}|{}", tag, x, y)),
+                        expected: format!("{:?}", alone[j]),
+                        observed: format!("{:?}", r),
+                    });
+                }
+            }
+        }
+        rep.states += pairs;
+        rep.transitions += pairs * 2;
+        rep.evaluations += pairs;
+        rep.traces += pairs;
+        let e = rep.extra.entry("engines".to_string()).or_insert_with(|| json!({}));
+        e[format!("{}:E3.product_pairs", tag)] = json!({"space": {"kind": "every ordered pair (x, y) of 243 identifiers (9 languages x 9 scripts x 3 regions): direction(x), then direction(y) on one thread", "pairs": pairs},
+            "inputs": pairs, "wall_s": (t0.elapsed().as_secs_f64() * 100.0).round() / 100.0});
+    }
     rep.collector = coll;
     rep.distinct_nontrivial = st.local.nontrivial;
     rep.samples = st.local.samples_json(10);
